@@ -76,6 +76,25 @@ def run(ctx):
         ctx.ob(R2, f'{short(ty)}·Display+FromStr', 'std::fmt::Display' in tr and 'std::str::FromStr' in tr,
                f'{ty}: Display: {"std::fmt::Display" in tr}, FromStr: {"std::str::FromStr" in tr}')
 
+    R3 = 'C19-R3'
+    ctx.rule(R3, 'the SQL comparison operators order floats the way DataValue does: DataValue (ORDER BY, GROUP BY, hash join, MIN/MAX) compares '
+                 'F32/F64 = OrderedFloat, where NaN == NaN and NaN is the greatest value; so the kernels behind = <> < <= > >= '
+                 '(ArrayImpl::{eq,ne,lt,le,gt,ge}) never compare raw f32/f64 (a primitive float comparison in their closures)')
+    n_k = 0
+    for b in prog.bodies.values():
+        if not re.search(r'array::ops::<impl array::ArrayImpl>::(eq|ne|gt|lt|ge|le)::\{closure', b.name):
+            continue
+        n_k += 1
+        raw = [(bb, st['rv']['op']) for bb, st in b.stmts() if st['s'] == 'assign' and st['rv'].get('rv') == 'binop'
+               and st['rv']['op'] in ('Lt', 'Le', 'Gt', 'Ge', 'Eq', 'Ne') and st['rv'].get('ty') in ('f64', 'f32')]
+        if raw:
+            ctx.ob(R3, f'{b.root.rsplit("::", 1)[-1]}·raw-float-comparison', False,
+                   f'{b.name}: primitive float comparison {raw[0][1]} at block {raw[0][0]}', [b.loc],
+                   what=f'the `{b.root.rsplit("::", 1)[-1]}` kernel compares raw f64 values (IEEE: NaN <> NaN, NaN not ordered) while ORDER BY / '
+                        'GROUP BY / joins / MIN-MAX use OrderedFloat: `x >= max(x)` rejects the NaN row that MAX returns')
+    ctx.ob(R3, 'cmp-kernels·no-raw-float-comparison', True, f'{n_k} comparison kernel closures examined', nontrivial=False)
+    ctx.floor(R3, n_k, 100, 'closures of the comparison kernels')
+
 
 def delegation(prog, impl, tr):
     """A manual relation next to a derived equality is accepted only when it is the derived relation of the wrapped value:
